@@ -178,8 +178,13 @@ func c03Alphabet(pattern string) []byte {
 	}
 	if strings.ContainsAny(pattern, "^") {
 		// The separator class is decided by exactly these neighbours.
-		for _, b := range []byte{'0', '9', '_', '-', '%', 'Z', ':'} {
+		for _, b := range []byte{'0', '9', '_', '-', '%', 'Z', ':', '~'} {
 			add(b)
+		}
+		// A blank is in the documented "not a separator" class as well.
+		if !seen[' '] {
+			seen[' '] = true
+			out = append(out, ' ')
 		}
 	}
 
